@@ -40,7 +40,7 @@ CLAIMED = {
    technique="Coq refinement (corollary of the TrieDict proof) + differential correspondence",
    ref="6 C11"),
  "C12": dict(
-   text="PARTIAL. Proved in Coq: a serialized LRU always ends with '|'; the two splitter regexes read from the source are pinned structurally (so an edit stops a named lemma); round trips computed inside Coq on concrete urls of every shape of the grammar. The lossless round trip (re-parse of lru_to_url(url_to_lru(u)) equals the components of u, LRU stability, unserialize o serialize and serialize o unserialize) is decided by re-parsing the implementation's output over the property's grammar (userinfo with / without / empty password, '@' inside, IPv4 / bracketed IPv6 with hex letters / localhost / trailing-dot / IDN hosts, ports, empty segments, empty and non-empty query and fragment, ':' '@' in path and query) x suffix_aware, and by model-vs-implementation correspondence on the same inputs; not proved for all urls.",
+   text="PARTIAL. Proved in Coq: lru_to_url applied to the stems of a parsed url rebuilds exactly that url (urlunsplit of its components) for every parsed url without userinfo and with an ordinary host, every suffix trie, modulo the computed behaviour of the port splitter regex on the netloc (hypotheses shown satisfiable on a url with port, empty segments, query and fragment); a serialized LRU always ends with '|'; the two splitter regexes read from the source are pinned structurally (so an edit stops a named lemma); round trips computed inside Coq on concrete urls of every shape of the grammar. The lossless round trip (re-parse of lru_to_url(url_to_lru(u)) equals the components of u, LRU stability, unserialize o serialize and serialize o unserialize) is decided by re-parsing the implementation's output over the property's grammar (userinfo with / without / empty password, '@' inside, IPv4 / bracketed IPv6 with hex letters / localhost / trailing-dot / IDN hosts, ports, empty segments, empty and non-empty query and fragment, ':' '@' in path and query) x suffix_aware, and by model-vs-implementation correspondence on the same inputs; not proved for all urls.",
    note="Trusted: as C11; urlsplit / urlunsplit models (leaf correspondence). Five genuine defects of the pinned tree were repaired by fix: commits (empty user/password, '@' in userinfo, IPv6 ports with hex letters, trailing dot with suffix_aware).",
    technique="Coq model + computed side conditions + parse-back deciders + differential correspondence",
    ref="6 C12"),
@@ -60,7 +60,7 @@ CLAIMED = {
    technique="Coq instantiation of the hostname-trie theorem + structural non-interference lemmas + differential correspondence + membership decider",
    ref="6 C18"),
  "C01": dict(
-   text="PARTIAL. The statement (the re-parsed result denotes the same resource: scheme, decoded userinfo, host up to case / IDNA, effective port, resolved decoded segments with trailing slash, decoded query items in order, decoded fragment) is decided by a resource decider applied to the implementation's output over the property's grammar x quoted x strip_fragment x default_protocol, and by correspondence of the extracted model with the implementation on the same inputs (string and unsplit=False). Proved in Coq: the effective port is never changed for any scheme and port; the string form is urlunsplit of the unsplit=False form; witnesses computed on the model. The unescaping clauses are C14's theorems / deciders.",
+   text="PARTIAL. The statement (the re-parsed result denotes the same resource: scheme, decoded userinfo, host up to case / IDNA, effective port, resolved decoded segments with trailing slash, decoded query items in order, decoded fragment) is decided by a resource decider applied to the implementation's output over the property's grammar x quoted x strip_fragment x default_protocol, and by correspondence of the extracted model with the implementation on the same inputs (string and unsplit=False). Proved in Coq: the effective port is never changed for any scheme and port; the string form is urlunsplit of the unsplit=False form; witnesses computed on the model. The unescaping clauses are C14's theorems / deciders. Proved in Coq as well: canonicalize_url raises nothing but the standard parser's ValueError; every component of the result is computed from the same component of the parsed url (scheme kept; netloc rebuilt from the unquoted userinfo, the decoded lower-cased host and the port minus the scheme's own default; query items kept in order, each unquoted / re-quoted; fragment dropped exactly when asked).",
    note='Trusted: Coq kernel, translator (regex ASTs, query tables, ISO codes, PSL), extraction, driver, harness; urllib / str models (leaf correspondence); idna / ipaddress oracles; platform_aware=True is exercised on the implementation only (the platform parsers are not in the model).',
    technique='Coq model + component lemmas + resource decider on re-parsed output + differential correspondence',
    ref='6 C01'),
